@@ -1387,7 +1387,6 @@ def run(ctx):
             stats_b.update(st)
             b_complete = b_complete and r.complete
             digests.append((label, r.digest()))
-            samples.extend(r.samples[:1] if variant == "breakup" else [])
             ctx.parts[label] = dict(states=r.states, transitions=r.transitions, max_depth=r.max_depth, graph_closed=r.complete,
                                     pruned=r.pruned, complete_runs=st.get("complete_runs", 0), vams_emitted=st.get("vams_emitted", 0),
                                     delivered=st.get("delivered", 0), xchecks=r.xchecks)
@@ -1397,6 +1396,17 @@ def run(ctx):
             for rec, where in out:
                 rec["part"] = "B:sweep"
                 ctx.violation(rec, replay=dict(part="B:sweep", sweep=where))
+    # one closed-loop history as sample: default schedule of the two-station break-up scenario (independent of the seed)
+    ms = LoopModel(("A", "B"), "breakup", 0)
+    ws = ms.init()
+    sample_b = []
+    while len(sample_b) < 40:
+        evs = ms.enabled(ws)
+        if not evs:
+            break
+        ms.apply(ws, evs[0])
+        sample_b.append(list(evs[0]))
+    samples.append(sample_b)
     digests.sort()
     digests.insert(0, ("A:passive+%d" % extra, tot_p.digest()))
     digests.insert(0, ("A", tot.digest()))
